@@ -440,7 +440,7 @@ Definition handle_nv (x : tc) (nty ninst nh nvw : N) (vs : list vote) (s : ssig)
     | None => x
     end
   | None =>
-    if negb (ctx_ok (nh, nvw)) then x else
+    if negb (ctx_ok (t_h t, tc_v x)) then x else      (* validated under the context of the position the node is in *)
     if negb (validProposal (c_me c) (r_height pp) b (r_hash pp)) then x else cont
   end.
 
